@@ -115,7 +115,7 @@ def deep_call(fn: Any) -> Any:
         _fold.MAX_DEPTH[0] = 20000
         threading.stack_size(1 << 30)
         sys.setrecursionlimit(400000)
-        t = threading.Thread(target=work)
+        t = threading.Thread(target=work, daemon=True)
         t.start()
         t.join()
     finally:
